@@ -285,6 +285,15 @@ static int pcp_response(int infd, char *host)
 
 #define RCP_MODEMASK (S_ISUID|S_ISGID|S_ISVTX|S_IRWXU|S_IRWXG|S_IRWXO)
 
+/* microseconds of the time stamps, where struct stat has them (POSIX.1-2008) */
+#ifdef st_mtime
+#  define PCP_MTIME_USEC(sb) ((long) ((sb).st_mtim.tv_nsec / 1000))
+#  define PCP_ATIME_USEC(sb) ((long) ((sb).st_atim.tv_nsec / 1000))
+#else
+#  define PCP_MTIME_USEC(sb) 0L
+#  define PCP_ATIME_USEC(sb) 0L
+#endif
+
 int pcp_sendfile(struct pcp_client *pcp, char *file, char *output_file)
 {
     int result = 0;
@@ -307,7 +316,8 @@ int pcp_sendfile(struct pcp_client *pcp, char *file, char *output_file)
          *    (st_mtime, st_mtime_usec, st_atime, st_atime_usec)
          */
         snprintf(tmpstr, sizeof(tmpstr), "T%ld %ld %ld %ld\n",
-                 (long) sb.st_mtime, 0L, sb.st_atime, 0L);
+                 (long) sb.st_mtime, PCP_MTIME_USEC(sb),
+                 (long) sb.st_atime, PCP_ATIME_USEC(sb));
         if (pcp_sendstr(pcp->outfd, tmpstr, pcp->host) < 0)
             goto fail;
 
